@@ -453,7 +453,7 @@ theorem NTT_gen_blocks (fuel : Nat) (hp : Heap) (self : NTT_Goldilocks) (o : Mod
   have hnbt : (bv nb).toNat = nb := bv_toNat _ (by omega)
   unfold NTT_NTT
   rw [hc0, hs0]
-  simp only [Bool.or_false, Bool.false_eq_true, if_false, hclamp, hgt1, hdiv, hmod, hresd, hallocg, hnull, if_true, hdst, hcnt,
+  simp only [Bool.or_false, Bool.false_eq_true, if_false, hclamp, hgt1, hdiv, hmod, hresd, hallocg, hnull, if_true, hdst, add_toU64_ite, toU64_int_zero, BitVec.add_zero, hcnt,
     Heap.alloc_fst, Heap.alloc_snd, Heap.size_push, hnbt]
   have hZ' : (Array.replicate (2 ^ K * alloc) (0#64 : BitVec 64)) = Z := rfl
   have hz0 : (0#64 : BitVec 64) = bv 0 := rfl
@@ -533,7 +533,7 @@ theorem NTT_gen_one (fuel : Nat) (hp : Heap) (self : NTT_Goldilocks) (o : Model.
   unfold NTT_NTT
   rw [hc0, hs0]
   simp only [Bool.or_false, Bool.false_eq_true, if_false, hclamp, hgt1, hdiv, hmod, hres, beq_self_eq_true, if_true, hdst,
-    hcnt, Heap.alloc_fst, Heap.alloc_snd]
+    add_toU64_ite, toU64_int_zero, BitVec.add_zero, hcnt, Heap.alloc_fst, Heap.alloc_snd]
   have h1n : (bv 1).toNat = 1 := rfl
   rw [h1n, rangeM_one]
   unfold NTT_NTT_loop2
@@ -618,7 +618,10 @@ theorem INTT_gen_all (fuel : Nat) (hp : Heap) (self : NTT_Goldilocks) (o : Model
   rw [hm]
   unfold NTT_INTT
   rw [hc0, hs0]
-  simp only [Bool.or_false, Bool.false_eq_true, if_false, hdst, bind_some_id]
+  simp only [Bool.or_false, Bool.false_eq_true, if_false, bind_some_id]
+  -- the destination selection, however it is written (if / else on a local, `?:` on `dst != NULL`, …)
+  ptr_norm at hdst ⊢
+  simp only [hdst]
   exact h
 
 end GoldilocksVerif.BridgeNtt
